@@ -245,10 +245,15 @@ CHECKS = {
               '(2) a model of the backtracking core _map_nodes / find_isomorphisms proved, by an invariant on the candidate '
               'sets, to return exactly the isomorphisms that respect the ordering constraints, for EVERY next-node heuristic '
               'and EVERY asymmetric constraint set (so independent of the min-candidates rule and of set iteration order). '
-              'Tie: real ISMAGS runs (sessions sharing a symmetry cache) on exhaustive small and generated graphs; outputs '
-              'compared with the model run on the constraints the implementation derived, and judged by the proved '
-              'checkers. Not proved: that analyze_symmetry yields constraints selecting one representative per class, the '
-              'look-ahead filter, and the shrinking search of largest_common_subgraph (all judged per input by the checkers).'),
+              '(3) the lex-leader theorem: ordering constraints that come from a stabiliser chain of a permutation group '
+              'select exactly one member of every symmetry class, for every injective placement (existence by a greedy '
+              'minimum, uniqueness by the first moved base point); whether the constraints the implementation derived are '
+              'such a chain over the pattern\'s automorphism group is a boolean certificate (groupb, chainb, proved '
+              'sufficient) evaluated per pattern. Tie: real ISMAGS runs (sessions sharing a symmetry cache) on exhaustive '
+              'small and generated graphs; outputs compared with the model run on the constraints the implementation '
+              'derived, certificates checked, and outputs judged by the proved checkers. Not proved: analyze_symmetry '
+              'itself (its output is certified per pattern), the look-ahead filter, and the shrinking search of '
+              'largest_common_subgraph (judged per input by the checkers).'),
         design_ref='DESIGN.md section 5, C06',
         note=('Trusted: Coq kernel + vm_compute; networkx only as a graph container; the reference enumeration is exponential '
               '(patterns <= 6 nodes, graphs <= 7 nodes in the correspondence).'),
